@@ -14,7 +14,10 @@
 (* (any sequence over the universe: cyclic, self-referential, duplicated,   *)
 (* farther, or naming nodes that then fail = fabricated ids), whether the   *)
 (* Ask fails, whether a put is accepted, and which value a get returns      *)
-(* (0 none, 1 a value that passes Validate, 2 one that does not).           *)
+(* (value classes: 0 nil, 1 a well-formed value, 2 a malformed one, 3 an    *)
+(* empty but non-nil one, 4 well-formed bytes shared by several nodes); the *)
+(* case also fixes the caller's Validate (vmode: 0 accept all, 1 reject     *)
+(* malformed, 2 reject malformed and empty, 3 reject everything).           *)
 (*                                                                          *)
 (* The whole operation is a deterministic function of that choice; it is    *)
 (* written as a step function over one record (Step), so that               *)
@@ -36,6 +39,8 @@ CONSTANTS
     Initials,   \* set of sequences over Nodes: params.Initial (duplicates allowed)
     Replies,    \* set of sequences over Nodes an adversarial responder may return
     Mins,       \* values of params.MinAccepted (put)
+    ValClasses, \* value classes a get responder may return (subset of 0..4)
+    VModes,     \* Validate functions the caller of get may pass (subset of 0..3)
     Orig        \* BOOLEAN: model the unrepaired code
 
 VARIABLE st     \* the record described at Start
@@ -76,9 +81,17 @@ Width(op, init) ==
 \* MinAccepted < 1 => 2                                    dht.go:167
 EffMin(min) == IF min < 1 THEN 2 ELSE min
 
-Start(op, init, min) ==
+\* params.Validate(value) for a value of class val (nil is never offered to Validate)
+Accepts(vmode, val) ==
+    /\ val # 0
+    /\ CASE vmode = 0 -> TRUE
+         [] vmode = 1 -> val \in {1, 3, 4}
+         [] vmode = 2 -> val \in {1, 4}
+         [] OTHER -> FALSE
+
+Start(op, init, min, vmode) ==
     LET n == Width(op, init) IN
-    [op |-> op, min |-> min, n |-> n,
+    [op |-> op, min |-> min, vmode |-> vmode, n |-> n,
      pc |-> IF n < 1 THEN "panic" ELSE "iter",      \* dht.go:205  if n < 1 { panic(n) }
      queue |-> init,                                \* nodes
      visited |-> {},                                \* ids already handed to fn
@@ -119,7 +132,8 @@ CbGet(s, node, r) ==
          ELSE LET c == IF Orig THEN node        \* F31: the last responder
                        ELSE IF s.closest = None \/ Lt(node, s.closest) THEN node ELSE s.closest
                   s2 == [s1 EXCEPT !.responded = @ + 1, !.closest = c,
-                                   !.from = IF r.val = 1 THEN node ELSE @]
+                                   \* resp.Value != nil && params.Validate(resp.Value)
+                                   !.from = IF Accepts(s.vmode, r.val) THEN node ELSE @]
               IN [s |-> s2, new |-> r.reply, cont |-> TRUE]
 
 \* DHTPut's callback                                       dht.go:178-192
@@ -195,7 +209,7 @@ Run(s, T, bad) ==
     ELSE Run(Step(s, IF s.queue = <<>> THEN NoResp ELSE RespOf(T, NextNode(s)), bad), T, bad)
 
 Res(s) == [closest |-> s.closest, contacted |-> s.contacted, responded |-> s.responded,
-           accepted |-> s.accepted, from |-> s.from, hasval |-> s.from # None,
+           accepted |-> s.accepted, from |-> s.from, hasval |-> s.from # None, valok |-> s.from # None,
            valsrc |-> IF s.from = None THEN {} ELSE {s.from}, added |-> s.added]
 
 -----------------------------------------------------------------------------
@@ -223,12 +237,21 @@ ClosestTruthfulP(op, order, T, tk, res) ==
              sets == base \cup (IF op = "findnode" /\ tk THEN {S \cup {Target} : S \in base} ELSE {})
          IN res.closest \in {Nearest(S) : S \in sets}
 
-\* a returned value came from a contacted node and passed validation
-ValueFromContactedP(op, order, T, res, err) ==
+\* a returned value came from a contacted node and passed validation:
+\*  - the bytes returned are bytes the node reported as From served (valsrc: the contacted nodes whose
+\*    answer carried exactly these bytes), and From answered;
+\*  - the caller's Validate accepts exactly these bytes (valok: ground truth, evaluated on the bytes by
+\*    the harness; in the model: a value is only ever taken from an accepted answer), and the class of
+\*    what From served is one the case's Validate accepts;
+\*  - From is set exactly when a value is reported (a rejected answer never sets From, which is what
+\*    arms the early exit), and success means a value is reported.
+ValueFromContactedP(op, vmode, order, T, res, err) ==
     op = "get" =>
         /\ res.hasval => /\ res.from \in Responded(order, T)
-                         /\ T[res.from].val = 1
                          /\ res.from \in res.valsrc
+                         /\ res.valok
+                         /\ Accepts(vmode, T[res.from].val)
+        /\ (res.from # None) <=> res.hasval
         /\ ~err => res.hasval
 
 \* the accepted count is the number of distinct nodes that accepted
@@ -242,13 +265,13 @@ ErrIffBelowMinP(op, min, order, T, err) ==
 NoPanicP(panic) == ~panic
 
 \* names of the operators that are false on a finished run
-Falsified(op, min, order, T, tk, res, err, panic, nonterm) ==
+Falsified(op, min, vmode, order, T, tk, res, err, panic, nonterm) ==
     IF panic THEN {"NoPanic"}
     ELSE IF nonterm THEN {"Terminates"} \cup (IF AtMostOnceP(order) THEN {} ELSE {"AtMostOnce"})
     ELSE {n \in {"AtMostOnce", "ClosestTruthful", "ValueFromContacted", "AcceptedDistinct", "ErrIffBelowMin"} :
             CASE n = "AtMostOnce" -> ~AtMostOnceP(order)
               [] n = "ClosestTruthful" -> ~ClosestTruthfulP(op, order, T, tk, res)
-              [] n = "ValueFromContacted" -> ~ValueFromContactedP(op, order, T, res, err)
+              [] n = "ValueFromContacted" -> ~ValueFromContactedP(op, vmode, order, T, res, err)
               [] n = "AcceptedDistinct" -> ~AcceptedDistinctP(op, order, T, res)
               [] n = "ErrIffBelowMin" -> ~ErrIffBelowMinP(op, min, order, T, err)}
 
@@ -259,10 +282,11 @@ Responders(op) ==
     {NoResp} \cup
     [reply : Replies, fail : {FALSE},
      accept : IF op = "put" THEN BOOLEAN ELSE {FALSE},
-     val : IF op = "get" THEN 0..2 ELSE {0}]
+     val : IF op = "get" THEN ValClasses ELSE {0}]
 
 Init == \E op \in Ops, init \in Initials :
-            \E min \in (IF op = "put" THEN Mins ELSE {0}) : st = Start(op, init, min)
+            \E min \in (IF op = "put" THEN Mins ELSE {0}), vm \in (IF op = "get" THEN VModes ELSE {0}) :
+                st = Start(op, init, min, vm)
 
 Iterate == /\ st.pc = "iter"
            /\ IF WillAsk(st) THEN \E r \in Responders(st.op) : st' = Step(st, r, {})
@@ -283,7 +307,7 @@ MaxInit == IF Initials = {} THEN 0 ELSE CHOOSE k \in 0..100 : (\A i \in Initials
 Terminates == /\ st.steps <= N + MaxInit + 1
               /\ Len(st.order) <= N
 ClosestTruthful == Done => ClosestTruthfulP(st.op, st.order, st.info, st.tk, Res(st))
-ValueFromContacted == Done => ValueFromContactedP(st.op, st.order, st.info, Res(st), st.err)
+ValueFromContacted == Done => ValueFromContactedP(st.op, st.vmode, st.order, st.info, Res(st), st.err)
 AcceptedDistinct == Done => AcceptedDistinctP(st.op, st.order, st.info, Res(st))
 ErrIffBelowMin == Done => ErrIffBelowMinP(st.op, st.min, st.order, st.info, st.err)
 \* the queue is kept in the order the loop would sort it into
